@@ -49,7 +49,7 @@ pub unsafe extern "C" fn bcmp(a: *const u8, b: *const u8, n: usize) -> i32 {
     0
 }
 
-const RULE: &str = "generated: (request, key) pairs from the completeness generator (small requests, both carriers); for each, the expected signature (reference model) with ONE character at position p replaced by another of the same class (digit->digit, letter->letter), and 'everything from p on wrong' variants. Observed: the instruction-address trace (rolling hash + step count) of the complete sigv4_validate_request call in a forked child single-stepped with ptrace, under a harness-supplied byte-wise early-exit memcmp/bcmp. Every second request is validated with a TRACE-level logger that renders every record, so the formatting code behind the library's trace!/debug! calls is part of the trace. Oracle (metamorphic): for a fixed request and key the trace is identical for every p; the first variant is traced twice and a difference there makes the run inconclusive, never a violation. Non-trivial: a variant that the crate refuses with the signature-mismatch error (it reached the comparison) and whose trace was recorded; distinct by (request digest, position, tail flag).";
+const RULE: &str = "generated: (request, key) pairs from the completeness generator (small requests, both carriers); for each, the expected signature (reference model) with ONE character at position p replaced by another of the same class (digit->digit, letter->letter), 'everything from p on wrong' variants, a different replacement character at p, and two-character variants that keep every order-independent digest of the string unchanged (successor at p / predecessor at another place: same byte sum; two unequal characters exchanged: same multiset). Observed: the instruction-address trace (rolling hash + step count) of the complete sigv4_validate_request call in a forked child single-stepped with ptrace, under a harness-supplied byte-wise early-exit memcmp/bcmp. Every second request is validated with a TRACE-level logger that renders every record, so the formatting code behind the library's trace!/debug! calls is part of the trace. Oracle (metamorphic): for a fixed request and key the trace is identical for every p; the first variant is traced twice and a difference there makes the run inconclusive, never a violation. Non-trivial: a variant that the crate refuses with the signature-mismatch error (it reached the comparison) and whose trace was recorded; distinct by (request digest, position, kind of variant).";
 
 #[derive(Clone, Copy, Default)]
 struct TraceResult {
@@ -68,12 +68,61 @@ fn wrong_char(c: u8) -> u8 {
     }
 }
 
-/// the signature with position p (and, for `tail`, everything after it) made wrong
-fn variant_sig(sig: &str, p: usize, tail: bool) -> String {
+const ONE: u8 = 0;
+const TAIL: u8 = 1;
+/// successor at p, predecessor somewhere else: the byte sum (and any other additive checksum) is that of the right signature
+const BALANCED: u8 = 2;
+/// two unequal characters exchanged: the multiset of characters is that of the right signature
+const EXCHANGED: u8 = 3;
+/// another replacement character at p than ONE uses
+const OTHER: u8 = 4;
+
+fn mode_name(m: u8) -> &'static str {
+    match m {
+        ONE => "one-char-wrong",
+        TAIL => "tail-wrong",
+        BALANCED => "two-wrong-same-byte-sum",
+        EXCHANGED => "two-exchanged",
+        _ => "one-char-wrong-other-replacement",
+    }
+}
+
+fn up_ok(c: u8) -> bool {
+    matches!(c, b'0'..=b'8' | b'a'..=b'e')
+}
+fn down_ok(c: u8) -> bool {
+    matches!(c, b'1'..=b'9' | b'b'..=b'f')
+}
+
+/// the signature with position p (and, for TAIL, everything after it; for the two-character kinds a partner position) made wrong
+fn variant_sig(sig: &str, p: usize, mode: u8) -> String {
     let mut b = sig.as_bytes().to_vec();
-    for i in p..b.len() {
-        if i == p || tail {
-            b[i] = wrong_char(b[i]);
+    let n = b.len();
+    match mode {
+        BALANCED => {
+            // first position >= p that can go up, first other position (cyclically after it) that can go down
+            if let Some(i) = (0..n).map(|k| (p + k) % n).find(|i| up_ok(b[*i])) {
+                if let Some(j) = (1..n).map(|k| (i + 7 + k) % n).find(|j| *j != i && down_ok(b[*j])) {
+                    b[i] += 1;
+                    b[j] -= 1;
+                }
+            }
+        }
+        EXCHANGED => {
+            let i = p % n;
+            if let Some(j) = (1..n).map(|k| (i + 11 + k) % n).find(|j| b[*j] != b[i]) {
+                b.swap(i, j);
+            }
+        }
+        OTHER => {
+            b[p] = wrong_char(wrong_char(wrong_char(b[p])));
+        }
+        _ => {
+            for i in p..n {
+                if i == p || mode == TAIL {
+                    b[i] = wrong_char(b[i]);
+                }
+            }
         }
     }
     String::from_utf8(b).unwrap()
@@ -87,7 +136,7 @@ struct Target {
 }
 
 /// Trace one validation in a forked child. Uses no heap in the parent.
-unsafe fn trace_one(t: &Target, p: usize, tail: bool, max_steps: u64, block_step: bool) -> TraceResult {
+unsafe fn trace_one(t: &Target, p: usize, tail: u8, max_steps: u64, block_step: bool) -> TraceResult {
     let pid = libc::fork();
     if pid < 0 {
         return TraceResult::default();
@@ -245,7 +294,7 @@ fn main() {
     }
 
     // ---- what to trace
-    let (tg, positions, tails): (Vec<(Plan, Target)>, Vec<usize>, Vec<usize>) = if let Some(file) = &replay {
+    let (tg, positions, tails, pairs): (Vec<(Plan, Target)>, Vec<usize>, Vec<usize>, Vec<usize>) = if let Some(file) = &replay {
         let text = std::fs::read_to_string(file).unwrap_or_default();
         let v: serde_json::Value = serde_json::from_str(&text).unwrap_or(serde_json::Value::Null);
         let p: Plan = match serde_json::from_value(v["case"]["plan"].clone()) {
@@ -257,12 +306,13 @@ fn main() {
         };
         let b = p.build().expect("replay plan builds");
         let logged = v["case"]["logged"].as_bool().unwrap_or(false);
-        (vec![(p, Target { case: b.case.clone(), sig: b.signed.signature.clone(), logged })], (0..64).collect(), vec![])
+        (vec![(p, Target { case: b.case.clone(), sig: b.signed.signature.clone(), logged })], (0..64).collect(), vec![0, 32], (0..64).step_by(4).collect())
     } else {
         let n = tier.pick(2, 8) as usize;
         let pos: Vec<usize> = if tier == Tier::Thorough { (0..64).collect() } else { (0..64).step_by(4).chain(std::iter::once(63)).collect() };
         let tails: Vec<usize> = if tier == Tier::Thorough { vec![0, 1, 16, 32, 48, 62] } else { vec![0, 32] };
-        (targets(seed, n), pos, tails)
+        let pairs: Vec<usize> = if tier == Tier::Thorough { (0..64).step_by(4).collect() } else { vec![0, 13, 31, 47, 62] };
+        (targets(seed, n), pos, tails, pairs)
     };
     if tg.is_empty() {
         eprintln!("INCONCLUSIVE: no traceable request was generated");
@@ -270,16 +320,21 @@ fn main() {
     }
 
     // variants: (target, position, tail)
-    let mut variants: Vec<(usize, usize, bool)> = Vec::new();
+    let mut variants: Vec<(usize, usize, u8)> = Vec::new();
     for t in 0..tg.len() {
         // baseline twice
-        variants.push((t, positions[0], false));
-        variants.push((t, positions[0], false));
+        variants.push((t, positions[0], ONE));
+        variants.push((t, positions[0], ONE));
         for &p in positions.iter().skip(1) {
-            variants.push((t, p, false));
+            variants.push((t, p, ONE));
         }
         for &p in &tails {
-            variants.push((t, p, true));
+            variants.push((t, p, TAIL));
+        }
+        for &p in &pairs {
+            variants.push((t, p, BALANCED));
+            variants.push((t, p, EXCHANGED));
+            variants.push((t, p, OTHER));
         }
     }
 
@@ -290,7 +345,7 @@ fn main() {
     for (_, t) in &tg {
         let _ = exec::run(&t.case);
         let mut c = t.case.clone();
-        let ns = variant_sig(&t.sig, 5, false);
+        let ns = variant_sig(&t.sig, 5, ONE);
         replace_signature(&mut c.req, &t.sig, &ns);
         let _ = exec::run(&c);
         let _ = exec::with_logs(|| exec::run(&c));
@@ -391,11 +446,11 @@ fn main() {
             let mut cc = CaseCtx::default();
             match results[vi] {
                 Some(r) if r.ok => {
-                    cc.class(if tail { "tail-wrong" } else { "one-char-wrong" });
-                    cc.nontrivial(mix(digest, if tail { "tail" } else { "one" }, p as u64));
+                    cc.class(mode_name(tail));
+                    cc.nontrivial(mix(digest, mode_name(tail), p as u64));
                     if samples_left > 0 {
                         samples_left -= 1;
-                        cc.sample(json!({"request": format!("{} {}", tg[t].1.case.req.method, tg[t].1.case.req.uri), "carrier": format!("{:?}", tg[t].0.spec.carrier), "first_wrong_position": p, "rest_wrong_too": tail, "trace_logging": tg[t].1.logged,
+                        cc.sample(json!({"request": format!("{} {}", tg[t].1.case.req.method, tg[t].1.case.req.uri), "carrier": format!("{:?}", tg[t].0.spec.carrier), "first_wrong_position": p, "variant": mode_name(tail), "trace_logging": tg[t].1.logged,
                             "steps": r.steps, "trace_hash": format!("{:016x}", r.hash), "baseline_steps": base.steps}));
                     }
                     ctx.record("trace", cc);
@@ -408,7 +463,7 @@ fn main() {
                                 tg[t].0.spec.carrier,
                                 if tg[t].1.logged { "on" } else { "off" },
                                 p,
-                                if tail { " (rest wrong too)" } else { "" },
+                                if tail == ONE { String::new() } else { format!(" ({})", mode_name(tail)) },
                                 r.steps,
                                 r.hash,
                                 positions[0],
@@ -416,7 +471,7 @@ fn main() {
                                 base.hash
                             ),
                         );
-                        ctx.violation("trace", &json!({"plan": tg[t].0, "position": p, "tail": tail, "logged": tg[t].1.logged}), &f);
+                        ctx.violation("trace", &json!({"plan": tg[t].0, "position": p, "mode": tail, "logged": tg[t].1.logged}), &f);
                         break;
                     }
                 }
@@ -429,7 +484,7 @@ fn main() {
     // the model agrees these variants are decided by the signature comparison
     for (p, t) in &tg {
         let mut c = t.case.clone();
-        replace_signature(&mut c.req, &t.sig, &variant_sig(&t.sig, 7, false));
+        replace_signature(&mut c.req, &t.sig, &variant_sig(&t.sig, 7, ONE));
         match analyze(&c).verdict() {
             Verdict::Reject { rank, .. } if *rank == R_SIGNATURE => {}
             other => ctx.inconclusive.lock().unwrap().push(format!("model does not place the refusal at the signature rule: {} ({:?})", other.short(), p.spec.carrier)),
